@@ -2,9 +2,9 @@
 import json, os, re, copy
 import vlib
 
-C03_WHATS = {"tad-gave-up-on-stale-state", "removed-with-finalizers", "ready-with-finalizers", "tad-success-not-gone", "watchfor-not-first-match",
+C03_WHATS = {"finalizer-write-not-as-requested", "tad-gave-up-on-stale-state", "removed-with-finalizers", "ready-with-finalizers", "tad-success-not-gone", "watchfor-not-first-match",
              "ctx-cancelled-spuriously", "missed-wakeup", "ctx-not-cancelled", "stale-read", "final-contents"}
-C04_WHATS = {"error-had-effect", "applied-twice", "conflict-retried-into-success", "returned-not-written",
+C04_WHATS = {"finalizer-write-not-as-requested", "error-had-effect", "applied-twice", "conflict-retried-into-success", "returned-not-written",
              "returned-not-current", "noop-success-without-effect", "success-in-wrong-phase", "rmw-not-on-current", "rmw-not-on-current-aba", "mutation-lost", "ready-with-finalizers",
              "update-version", "rmw-call-never-returned", "create-over-existing", "modify-create-content", "unexpected-update", "stale-read",
              "final-contents"}
@@ -14,7 +14,8 @@ def run(ctx, prop, gens, whats, nbeh, depth=80):
     behs = []
     for cfg in gens:
         behs += vlib.gen_behaviours(ctx, "GenHelpers", cfg, num=nbeh // len(gens), depth=depth * 3,
-                                    env={"GEN_DEPTH": depth, "GEN_ALT": 1 if ("race" in cfg or "idem" in cfg or "same" in cfg) else 0}, name="gen-" + cfg)[:nbeh // len(gens)]
+                                    env={"GEN_DEPTH": depth, "GEN_ALT": 1 if ("race" in cfg or "idem" in cfg or "same" in cfg or "fins" in cfg) else 0,
+                                         "GEN_LEAD": 4 if "fins" in cfg else 0}, name="gen-" + cfg)[:nbeh // len(gens)]
     # distinct behaviours only
     seen, uniq = set(), []
     for b in behs:
